@@ -48,6 +48,74 @@ def rand_name(rng):
 	return rng.choice('AZ@`{/:[') + 'ab'
 
 
+# strings whose Unicode normal forms (NFC / NFD / NFKC / NFKD), case foldings or stripped forms differ from the string itself: the
+# identifiers are hashes of the UTF-8 bytes of the string AS GIVEN, so each of these has its own key
+UNICODE_FORMS = [
+	'cafe\u0301', 'caf\u00e9', 'A\u030a', '\u00c5', '\u212b', '\u2126', '\u03a9', '\u1112\u1161\u11ab', '\ud55c', 'a\u0323\u0307', 'a\u0307\u0323',
+	'\u1e9b\u0323', '\ufb01', 'fi', '\uff21', '\u00b5', '\u03bc', '\u2160', '\u00df', 'SS', 'ss', '\u0130', 'i\u0307', '\u01c5', 'n\u0303o', '\u00f1o',
+	'\u0958', '\u0915\u093c', '\u2000x', '\u00a0x', ' x', 'x ', 'x\n', '\ufeffx', 'x\u200d', 'x\u00ad', 'e\u0301\u0301', '\u0344', '\u0308\u0301',
+	'\uf900', '\u8c48', '\u1100\u1161', '\uac00', 'Key', 'key', 'KEY']
+
+
+def unicode_form_seed(rng):
+	"""One of the corpus strings alone, or embedded in / concatenated with ordinary text."""
+	core = rng.choice(UNICODE_FORMS)
+	alphabet = 'abcdefghijklmnopqrstuvwxyz0123456789_- '
+	style = rng.randrange(4)
+	if style == 0:
+		return core
+	if style == 1:
+		return ''.join(rng.choice(alphabet) for _ in range(rng.randrange(1, 8))) + core
+	if style == 2:
+		return core + ''.join(rng.choice(alphabet) for _ in range(rng.randrange(1, 8)))
+	return core + rng.choice(UNICODE_FORMS)
+
+
+PATH_EDITS = ['pop', 'keep-first', 'reverse', 'clear', 'append', 'set-last', 'set-first', 'none', 'extend', 'sort-descending']
+
+
+def edit_list(values, edit):
+	"""What a caller may do with a list it was given (its own copy, by the function's contract)."""
+	if edit == 'pop':
+		values.pop()
+	elif edit == 'keep-first':
+		del values[1:]
+	elif edit == 'reverse':
+		values.reverse()
+	elif edit == 'clear':
+		values.clear()
+	elif edit == 'append':
+		values.append(0)
+	elif edit == 'set-last':
+		values[-1] = 1
+	elif edit == 'set-first':
+		values[0] ^= 1
+	elif edit == 'extend':
+		values += values
+	elif edit == 'sort-descending':
+		values.sort(reverse=True)
+
+
+def gen_path_sessions(rng, count):
+	"""Several resolutions in one process: 2-3 names (valid multi-level ones, now and then an invalid one) resolved 4-8 times in a mixed
+	order; after each resolution the caller edits the list it got back (pop, truncate, reverse, clear, append, overwrite ...).  Every
+	resolution must give the level-by-level definition, whatever was resolved and done before."""
+	parts = ['a', 'b', 'ab', 'x1', 'symbol', 'xym', 'cat', 'token', 'foo-bar', 'n_1']
+	cases = []
+	for index in range(count):
+		names = ['.'.join(rng.choice(parts) for _ in range(rng.randrange(2, 5))) for _ in range(rng.randrange(1, 4))]
+		if index % 3 == 0:
+			names[0] = 'symbol.xym'
+		if index % 5 == 4:
+			names.append(rng.choice(['a..b', 'A.b', 'a.b.', 'a. b']))
+		steps = []
+		for position in range(rng.randrange(4, 9)):
+			name = names[0] if position in (0, 2) else rng.choice(names)
+			steps.append({'fqn': name, 'then': rng.choice(PATH_EDITS) if position else rng.choice(PATH_EDITS[:7])})
+		cases.append({'kind': 'pathsession', 'steps': steps})
+	return cases
+
+
 def gen_cases(rng, tier):
 	n = 60 if tier == 'quick' else 6000
 	cases = []
@@ -82,6 +150,12 @@ def gen_cases(rng, tier):
 	for i in range(n // 2):
 		seed = ''.join(chr(rng.choice([rng.randrange(32, 127), rng.randrange(160, 0x800)])) for _ in range(rng.randrange(0, 20))).replace('"', 'q')
 		cases.append({'kind': 'mdkey', 'seed': seed})
+	# seeds and names that are not in a Unicode normal form / differ from their case-folded or stripped form: each corpus string once, then mixed
+	for seed in UNICODE_FORMS + [unicode_form_seed(rng) for _ in range(max(10, n // 4))]:
+		cases.append({'kind': 'mdkey', 'seed': seed})
+	for i in range(max(10, n // 4)):
+		cases.append({'kind': 'namespace', 'name': unicode_form_seed(rng), 'parent': rng.choice([0, rng.randrange(2**64)])})
+	cases += gen_path_sessions(rng, max(15, n // 8))
 	for i in range(n):
 		la, lb = rng.choice([(0, 0), (0, 5), (5, 0), (3, 3), (3, 7), (7, 3), (1, 1), (rng.randrange(40), rng.randrange(40))])
 		old, new = rand_bytes(rng, la), rand_bytes(rng, lb)
@@ -161,6 +235,29 @@ def impl(case):
 			except ValueError:
 				alias = 'reject'
 			return f'{opt_list(path)}|{alias}'
+		if kind == 'pathsession':
+			results = []
+			for step in case['steps']:
+				try:
+					path = IdGenerator.generate_namespace_path(step['fqn'])
+					shown = opt_list(path)
+				except ValueError:
+					path, shown = None, 'reject'
+				except Exception as ex:  # pylint: disable=broad-except
+					path, shown = None, f'crash:{type(ex).__name__}'
+				try:
+					alias = str(IdGenerator.generate_mosaic_alias_id(step['fqn']))
+				except ValueError:
+					alias = 'reject'
+				except Exception as ex:  # pylint: disable=broad-except
+					alias = f'crash:{type(ex).__name__}'
+				results.append(f'{shown}|{alias}')
+				if path is not None:
+					try:
+						edit_list(path, step['then'])
+					except IndexError:
+						pass    # nothing to pop / overwrite in the caller's list
+			return ';'.join(results)
 		if kind == 'validname':
 			return 'T' if IdGenerator.is_valid_namespace_name(case['name']) else 'F'
 		if kind == 'mdkey':
@@ -201,6 +298,8 @@ def model(case):
 		return f'Z_to_string (generate_namespace_id sha3_256 {blit(case["name"].encode("utf8"))} {zlit(case["parent"])})'
 	if kind == 'path':
 		return f'render_path sha3_256 {cps(case["fqn"])}'
+	if kind == 'pathsession':
+		return 'semis [' + '; '.join(f'render_path sha3_256 {cps(step["fqn"])}' for step in case['steps']) + ']'
 	if kind == 'validname':
 		return f'bool_to_string (is_valid_namespace_name {cps(case["name"])})'
 	if kind == 'mdkey':
@@ -229,6 +328,7 @@ Definition render_path H (fqn : list Z) : string :=
   | Some p => "ok:" ++ commas p ++ "|" ++ match generate_mosaic_alias_id H fqn with Some a => Z_to_string a | None => "reject" end
   end.
 Definition twice (s : string) : string := s ++ "|" ++ s.
+Fixpoint semis (l : list string) : string := match l with [] => "" | [x] => x | x :: r => x ++ ";" ++ semis r end.
 Definition render_alias (id net : Z) : string :=
   let a := address_from_namespace_id id net in to_hex a ++ "|" ++ render_opt (address_to_namespace_id a).
 '''
@@ -240,6 +340,19 @@ def sha3(data):
 	return hashlib.sha3_256(data).digest()
 
 
+def p_path(fqn):
+	"""Path and alias id of a dotted name from the property text: level by level, each level's id the next parent; invalid part -> rejected."""
+	parts = fqn.split('.')
+	if not all(NAME_RE.fullmatch(p) for p in parts):
+		return 'reject|reject'
+	ids = []
+	parent = 0
+	for part in parts:
+		parent = int.from_bytes(sha3(parent.to_bytes(8, 'little') + part.encode('utf8'))[:8], 'little') | F63
+		ids.append(parent)
+	return f'{opt_list(ids)}|{ids[-1]}'
+
+
 def oracle(case, out):
 	kind = case['kind']
 	if kind == 'mosaic':
@@ -249,17 +362,20 @@ def oracle(case, out):
 		expected = int.from_bytes(sha3(case['parent'].to_bytes(8, 'little') + case['name'].encode('utf8'))[:8], 'little') | F63
 		return None if out == str(expected) else f'namespace id {out} != first 8 bytes of SHA3-256(parent || name) with top bit set ({expected})'
 	if kind == 'path':
-		parts = case['fqn'].split('.')
-		if all(NAME_RE.fullmatch(p) for p in parts):
-			ids = []
-			parent = 0
-			for part in parts:
-				parent = int.from_bytes(sha3(parent.to_bytes(8, 'little') + part.encode('utf8'))[:8], 'little') | F63
-				ids.append(parent)
-			expected = f'{opt_list(ids)}|{ids[-1]}'
-		else:
-			expected = 'reject|reject'
+		expected = p_path(case['fqn'])
 		return None if out == expected else f'path {case["fqn"]!r}: got {out}, level-by-level definition gives {expected}'
+	if kind == 'pathsession':
+		seen = out.split(';')
+		if len(seen) != len(case['steps']):
+			return f'a sequence of {len(case["steps"])} resolutions gave {out}'
+		history = []
+		for number, (step, got) in enumerate(zip(case['steps'], seen)):
+			expected = p_path(step['fqn'])
+			if got != expected:
+				return f'resolution {number + 1} in one process, of {step["fqn"]!r}, after {", ".join(history) or "nothing"}: got {got}, ' \
+					f'level-by-level definition gives {expected}'
+			history.append(f'resolving {step["fqn"]!r} and editing the returned list ({step["then"]})')
+		return None
 	if kind == 'validname':
 		expected = 'T' if NAME_RE.fullmatch(case['name']) else 'F'
 		return None if out == expected else f'name {case["name"]!r} validity {out}, [a-z0-9][a-z0-9_-]* gives {expected}'
@@ -307,6 +423,8 @@ def run(check, unrecognised):
 		'modelled, not verified: CPython str.split/str.encode/int.to_bytes semantics, ByteArray/NamespaceId wrappers']
 	check.assume += ['hash is a fixed function (no collision-resistance claim)', 'names are compared as code points; valid names are ASCII (proved)']
 	check.extra['rule'] = 'seeded random + boundary cases per function (mosaic, namespace, path, validname, mdkey, mdupdate, alias, toalias); ' \
+		'metadata seeds and names that differ from their Unicode normal / case-folded / stripped forms (combining marks, singletons, Hangul jamo, compatibility ' \
+		'characters); sequences of path resolutions in one process with the returned lists edited by the caller in between; ' \
 		'distinct = distinct (kind, arguments); non-trivial = all (each exercises hashing or a reject branch)'
 	if unrecognised.get('IdsOps'):
 		check.notes.append(f'anchors not recognised, pinned constants used for them: {unrecognised["IdsOps"]}')
